@@ -8,13 +8,17 @@
 //!   general : separated / overlapping / anisotropic / degenerate / offset (1e3 and 1e5..2e9) / tiny blobs, 1..6 features,
 //!             1..4 components, both initialisers, reg_covar in {0,1e-6,1e-2,..}; judged by the
 //!             Coq checker gmm_ok (exact rational arithmetic) and by the posterior enclosure.
+//!   layouts / scales: every case presents its records and batches in one of 7 memory layouts and at one of 5
+//!             power-of-two scales (rotating with the case id); non-standard layouts must reproduce the standard
+//!             outcome bit for bit (oracle bit 2048).
 //!   error   : inputs on which fitting cannot succeed (max_n_iterations = 1, more components than
 //!             distinct points, singular covariance without regularisation, overflowing data):
 //!             the result must be Err - or a model that passes gmm_ok - never a panic or a model
 //!             with non-finite parameters.
 use linfa::prelude::*;
 use linfa_clustering::{GaussianMixtureModel, GmmError, GmmInitMethod, KMeans};
-use ndarray::Array2;
+use ndarray::{s, Array2, ArrayBase, Data, Ix2, ShapeBuilder};
+use std::cell::{Cell, RefCell};
 use rand::SeedableRng;
 use rand_xoshiro::Xoshiro256Plus;
 use vh::*;
@@ -94,53 +98,208 @@ fn do_fit(x: &Array2<f64>, c: &Cfg) -> Result<Result<FitOut, String>, String> {
     do_fit_k(x, c).map(|r| r.map_err(|e| e.1))
 }
 
-/// Ok(Ok(fit)) | Ok(Err((GmmError variant, error message))) | Err(panic message)
-fn do_fit_k(x: &Array2<f64>, c: &Cfg) -> Result<Result<FitOut, (u64, String)>, String> {
-    let (x2, c2) = (x.clone(), c.clone());
-    guarded(move || {
-        let rng = Xoshiro256Plus::seed_from_u64(c2.seed);
-        let ds = DatasetBase::from(x2);
-        let init = if c2.random_init { GmmInitMethod::Random } else { GmmInitMethod::KMeans };
-        // both ways of building the parameter set: rng first, or every setter first and `with_rng` last
-        // (which copies the fields one by one)
-        let r = if c2.seed % 2 == 0 {
-            GaussianMixtureModel::params_with_rng(c2.k, rng)
-                .tolerance(c2.tol)
-                .reg_covariance(c2.reg)
-                .n_runs(c2.n_runs)
-                .max_n_iterations(c2.max_iter)
-                .init_method(init)
-                .fit(&ds)
-        } else {
-            GaussianMixtureModel::params(c2.k)
-                .tolerance(c2.tol)
-                .reg_covariance(c2.reg)
-                .n_runs(c2.n_runs)
-                .max_n_iterations(c2.max_iter)
-                .init_method(init)
-                .with_rng(rng)
-                .fit(&ds)
-        };
-        match r {
-            Ok(m) => Ok(FitOut {
-                w: m.weights().to_vec(),
-                mu: rows_of(&m.means().view()),
-                cov: mats(m.covariances()),
-                prec: mats(m.precisions()),
-                pchol: pchol_of(&m),
-                model: m,
-            }),
-            Err(e) => Err((err_kind(&e), format!("{}", e).chars().take(160).collect())),
-        }
-    })
+// ------------------------------------------------------------------------------------------------
+// memory layouts and scales: every case presents its records / query batches in one of seven layouts of the
+// SAME logical matrix and at one of five power-of-two scales (rotating with the case id)
+
+#[derive(Clone, Copy, PartialEq, Debug)]
+enum Layout {
+    Std,      // row-major, owned
+    F,        // column-major (Fortran order), owned
+    RevRowsV, // rows stored in reverse order, read through a view with a negative row stride
+    RevRowsO, // `.to_owned()` of that view (keeps the negative stride)
+    RevColsV, // columns stored in reverse order, negative column stride, view
+    RevColsO, // `.to_owned()` of that view
+    Strided,  // every second row and column of a (2n x 2p) array whose other entries are junk
+}
+const LAYOUTS: [Layout; 7] = [Layout::Std, Layout::F, Layout::RevRowsV, Layout::RevRowsO, Layout::RevColsV, Layout::RevColsO, Layout::Strided];
+const SCALES: [i32; 5] = [0, -40, -20, 20, 40];
+fn lname(l: Layout) -> &'static str {
+    match l {
+        Layout::Std => "std",
+        Layout::F => "colmajor",
+        Layout::RevRowsV => "revrows_view",
+        Layout::RevRowsO => "revrows_owned",
+        Layout::RevColsV => "revcols_view",
+        Layout::RevColsO => "revcols_owned",
+        Layout::Strided => "strided2",
+    }
+}
+fn layout_x_of(id: u64) -> Layout { LAYOUTS[(id % 7) as usize] }
+fn layout_q_of(id: u64) -> Layout { LAYOUTS[((id / 5) % 7) as usize] }
+fn scale_of(id: u64) -> i32 { SCALES[(id % 5) as usize] }
+fn pow2(e: i32) -> f64 { 2f64.powi(e) }
+
+thread_local! {
+    /// (layout of the records given to fit, layout of the batches given to predict / predict_proba)
+    static CUR_LAYOUT: Cell<(Layout, Layout)> = Cell::new((Layout::Std, Layout::Std));
+    /// context of the running case and the layout differences found in it
+    static CUR_CTX: RefCell<(u64, Vec<String>, String)> = RefCell::new((0, vec![], String::new()));
+    static LAYOUT_DIFFS: RefCell<Vec<(u64, Vec<String>, String, String)>> = RefCell::new(vec![]);
+}
+fn set_ctx(id: u64, tags: &[String], desc: &str) {
+    CUR_LAYOUT.with(|c| c.set((layout_x_of(id), layout_q_of(id))));
+    CUR_CTX.with(|c| *c.borrow_mut() = (id, tags.to_vec(), desc.to_string()));
+}
+fn note_diff(what: String) {
+    let (id, tags, desc) = CUR_CTX.with(|c| c.borrow().clone());
+    LAYOUT_DIFFS.with(|d| d.borrow_mut().push((id, tags, desc, what)));
+}
+/// report the layout differences collected so far (oracle bit 2048)
+fn flush_diffs(out: &mut Out) {
+    let ds: Vec<(u64, Vec<String>, String, String)> = LAYOUT_DIFFS.with(|d| d.borrow_mut().drain(..).collect());
+    for (id, tags, desc, what) in ds {
+        let t: Vec<&str> = tags.iter().map(|s| s.as_str()).collect();
+        out.rust_fail(id, 2048, &t, &what, &desc);
+    }
 }
 
-fn do_predict(m: &GaussianMixtureModel<f64>, q: &Array2<f64>) -> Result<(Mat, Vec<usize>), String> {
+/// the store behind a layout: a standard-layout (or column-major) array that the views below read
+fn backing(x: &Array2<f64>, l: Layout) -> Array2<f64> {
+    let (n, p) = x.dim();
+    match l {
+        Layout::Std => x.clone(),
+        Layout::F => {
+            let mut a = Array2::zeros((n, p).f());
+            a.assign(x);
+            a
+        }
+        Layout::RevRowsV | Layout::RevRowsO => Array2::from_shape_fn((n, p), |(i, j)| x[[n - 1 - i, j]]),
+        Layout::RevColsV | Layout::RevColsO => Array2::from_shape_fn((n, p), |(i, j)| x[[i, p - 1 - j]]),
+        Layout::Strided => Array2::from_shape_fn((2 * n, 2 * p), |(i, j)| if i % 2 == 0 && j % 2 == 0 { x[[i / 2, j / 2]] } else { 7.0e7 + (31 * i + 17 * j) as f64 }),
+    }
+}
+/// run `$f` (a generic function of one `ArrayBase<D, Ix2>` argument plus extra arguments) on the logical
+/// matrix `$x` presented in layout `$l`
+macro_rules! in_layout {
+    ($x:expr, $l:expr, $f:ident $(, $arg:expr)*) => {{
+        let b = backing($x, $l);
+        match $l {
+            Layout::Std | Layout::F => $f(b $(, $arg)*),
+            Layout::RevRowsV => $f(b.slice(s![..;-1, ..]) $(, $arg)*),
+            Layout::RevRowsO => $f(b.slice(s![..;-1, ..]).to_owned() $(, $arg)*),
+            Layout::RevColsV => $f(b.slice(s![.., ..;-1]) $(, $arg)*),
+            Layout::RevColsO => $f(b.slice(s![.., ..;-1]).to_owned() $(, $arg)*),
+            Layout::Strided => $f(b.slice(s![..;2, ..;2]) $(, $arg)*),
+        }
+    }};
+}
+
+fn fit_any<D: Data<Elem = f64>>(recs: ArrayBase<D, Ix2>, c2: &Cfg) -> Result<FitOut, (u64, String)> {
+    let rng = Xoshiro256Plus::seed_from_u64(c2.seed);
+    let ds = DatasetBase::from(recs);
+    let init = if c2.random_init { GmmInitMethod::Random } else { GmmInitMethod::KMeans };
+    // both ways of building the parameter set: rng first, or every setter first and `with_rng` last
+    // (which copies the fields one by one)
+    let r = if c2.seed % 2 == 0 {
+        GaussianMixtureModel::params_with_rng(c2.k, rng)
+            .tolerance(c2.tol)
+            .reg_covariance(c2.reg)
+            .n_runs(c2.n_runs)
+            .max_n_iterations(c2.max_iter)
+            .init_method(init)
+            .fit(&ds)
+    } else {
+        GaussianMixtureModel::params(c2.k)
+            .tolerance(c2.tol)
+            .reg_covariance(c2.reg)
+            .n_runs(c2.n_runs)
+            .max_n_iterations(c2.max_iter)
+            .init_method(init)
+            .with_rng(rng)
+            .fit(&ds)
+    };
+    match r {
+        Ok(m) => Ok(FitOut {
+            w: m.weights().to_vec(),
+            mu: rows_of(&m.means().view()),
+            cov: mats(m.covariances()),
+            prec: mats(m.precisions()),
+            pchol: pchol_of(&m),
+            model: m,
+        }),
+        Err(e) => Err((err_kind(&e), format!("{}", e).chars().take(160).collect())),
+    }
+}
+
+type FitRes = Result<Result<FitOut, (u64, String)>, String>;
+fn fit_in(x: &Array2<f64>, c: &Cfg, l: Layout) -> FitRes {
+    let (x2, c2) = (x.clone(), c.clone());
+    guarded(move || in_layout!(&x2, l, fit_any, &c2))
+}
+
+fn bits_eq(a: &[f64], b: &[f64]) -> bool {
+    a.len() == b.len() && a.iter().zip(b).all(|(u, v)| u.to_bits() == v.to_bits() || (u.is_nan() && v.is_nan()))
+}
+fn flat(ms: &[Mat]) -> Vec<f64> {
+    ms.iter().flatten().flatten().cloned().collect()
+}
+fn same_fit(a: &FitRes, b: &FitRes) -> Result<(), String> {
+    match (a, b) {
+        (Err(_), Err(_)) => Ok(()),
+        (Ok(Err(e)), Ok(Err(f))) => if e.0 == f.0 { Ok(()) } else { Err(format!("error variant {} instead of {}", e.0, f.0)) },
+        (Ok(Ok(f)), Ok(Ok(g))) => {
+            if !bits_eq(&f.w, &g.w) { return Err("weights differ".into()); }
+            if !bits_eq(&f.mu.concat(), &g.mu.concat()) { return Err("means differ".into()); }
+            if !bits_eq(&flat(&f.cov), &flat(&g.cov)) { return Err("covariances differ".into()); }
+            if !bits_eq(&flat(&f.prec), &flat(&g.prec)) { return Err("precisions differ".into()); }
+            if !bits_eq(&flat(&f.pchol), &flat(&g.pchol)) { return Err("precisions_chol differ".into()); }
+            Ok(())
+        }
+        (u, v) => {
+            let n = |r: &FitRes| match r { Err(_) => "a panic".to_string(), Ok(Err(e)) => format!("Err(variant {})", e.0), Ok(Ok(_)) => "a model".to_string() };
+            Err(format!("{} instead of {}", n(u), n(v)))
+        }
+    }
+}
+
+/// Ok(Ok(fit)) | Ok(Err((GmmError variant, error message))) | Err(panic message).  The records are presented in
+/// the layout of the running case; when that is not the standard one the fit is repeated on the standard
+/// layout and must give the same outcome bit for bit (the arithmetic of fit does not depend on the strides)
+fn do_fit_k(x: &Array2<f64>, c: &Cfg) -> FitRes {
+    let l = CUR_LAYOUT.with(|c| c.get()).0;
+    let r = fit_in(x, c, l);
+    if l != Layout::Std {
+        let r0 = fit_in(x, c, Layout::Std);
+        if let Err(what) = same_fit(&r, &r0) {
+            note_diff(format!("fit on records in layout {} differs from the fit on the same records in standard layout: {}", lname(l), what));
+        }
+    }
+    r
+}
+
+fn proba_any<D: Data<Elem = f64>>(q: ArrayBase<D, Ix2>, m: &GaussianMixtureModel<f64>) -> Mat {
+    rows_of(&m.predict_proba(&q).view())
+}
+fn pred_any<D: Data<Elem = f64>>(q: ArrayBase<D, Ix2>, m: &GaussianMixtureModel<f64>) -> Vec<usize> {
+    m.predict(&q).to_vec()
+}
+fn predict_in(m: &GaussianMixtureModel<f64>, q: &Array2<f64>, l: Layout) -> Result<(Mat, Vec<usize>), String> {
     let (m2, q2) = (m.clone(), q.clone());
-    let proba = guarded(move || rows_of(&m2.predict_proba(&q2).view())).map_err(|e| format!("predict_proba panicked: {}", e))?;
+    let proba = guarded(move || in_layout!(&q2, l, proba_any, &m2)).map_err(|e| format!("predict_proba panicked: {}", e))?;
     let (m3, q3) = (m.clone(), q.clone());
-    let pred = guarded(move || m3.predict(&q3).to_vec()).map_err(|e| format!("predict panicked: {}", e))?;
+    let pred = guarded(move || in_layout!(&q3, l, pred_any, &m3)).map_err(|e| format!("predict panicked: {}", e))?;
     Ok((proba, pred))
+}
+fn do_predict(m: &GaussianMixtureModel<f64>, q: &Array2<f64>) -> Result<(Mat, Vec<usize>), String> {
+    let l = CUR_LAYOUT.with(|c| c.get()).1;
+    let r = predict_in(m, q, l);
+    if l != Layout::Std {
+        let r0 = predict_in(m, q, Layout::Std);
+        match (&r, &r0) {
+            (Ok((p, y)), Ok((p0, y0))) => {
+                if !bits_eq(&p.concat(), &p0.concat()) {
+                    note_diff(format!("predict_proba on a batch in layout {} differs from the same batch in standard layout", lname(l)));
+                }
+                if y != y0 {
+                    note_diff(format!("predict on a batch in layout {} differs from the same batch in standard layout", lname(l)));
+                }
+            }
+            (Err(_), Err(_)) => {}
+            _ => note_diff(format!("predict / predict_proba panics on a batch in layout {} or in standard layout only", lname(l))),
+        }
+    }
+    r
 }
 
 /// EM self-consistency (Rust side, independent M-step): with r = predict_proba(X) of the fitted model,
@@ -512,7 +671,44 @@ fn probe_term(p: &Probe) -> String {
     )
 }
 
+fn scaled(x: &Mat, e: i32) -> Mat {
+    let f = pow2(e);
+    x.iter().map(|r| r.iter().map(|v| v * f).collect()).collect()
+}
+/// tags, description fields and input-distribution counters of the layout / scale variant of case `id`
+fn variant(out: &mut Out, id: u64, sc: i32, tags: &mut Vec<String>) -> String {
+    let (lx, lq) = (layout_x_of(id), layout_q_of(id));
+    tags.push(format!("layout_{}", lname(lx)));
+    tags.push(format!("qlayout_{}", lname(lq)));
+    tags.push(format!("scale_{}", sc));
+    out.bump(&format!("layout_records_{}", lname(lx)));
+    out.bump(&format!("layout_batches_{}", lname(lq)));
+    out.bump(&format!("scale_2^{}", sc));
+    format!("\"layout_records\": {}, \"layout_batches\": {}, \"scale_log2\": {}, ", jstr(lname(lx)), jstr(lname(lq)), sc)
+}
+
+/// the layouts are what they claim to be (a failure here is a defect of the harness, not of the repository)
+fn layout_self_check() {
+    let x = Array2::from_shape_fn((3, 2), |(i, j)| (10 * i + j) as f64);
+    fn probe<D: Data<Elem = f64>>(a: ArrayBase<D, Ix2>, want: &Array2<f64>) -> (Vec<isize>, bool, bool) {
+        (a.strides().to_vec(), a == *want, a.as_slice_memory_order().is_some())
+    }
+    for &l in LAYOUTS.iter() {
+        let (st, same, contiguous) = in_layout!(&x, l, probe, &x);
+        assert!(same, "layout {} does not present the logical matrix", lname(l));
+        let ok = match l {
+            Layout::Std => st == vec![2, 1],
+            Layout::F => st == vec![1, 3] && contiguous,
+            Layout::RevRowsV | Layout::RevRowsO => st == vec![-2, 1] && contiguous,
+            Layout::RevColsV | Layout::RevColsO => st == vec![2, -1] && contiguous,
+            Layout::Strided => st == vec![8, 2] && !contiguous,
+        };
+        assert!(ok, "layout {} has strides {:?}", lname(l), st);
+    }
+}
+
 fn main() {
+    layout_self_check();
     let args = parse_args();
     let mut rng = Sm64::new(args.seed);
     let thorough = args.tier == "thorough";
@@ -525,12 +721,17 @@ fn main() {
         let mut r = rng.fork();
         let d = 1 + r.below(4) as usize;
         let k = 1 + r.below(if d == 1 { 3 } else { 4 }) as usize;
+        flush_diffs(&mut out);
         let (x, lab) = gen_exact(&mut r, k, d);
+        // power-of-two scale of the case: the data by 2^sc, reg_covar (a variance) by 2^(2 sc); the tolerance
+        // bounds a change of the mean log-likelihood, which a rescaling only shifts: it is not scaled
+        let sc = scale_of(id);
+        let x = scaled(&x, sc);
         let k = 1 + *lab.iter().max().unwrap();
         let regs = [0.0009765625, 1e-6, 1e-2, 1e-6, 0.25, 0.0];
         let cfg = Cfg {
             k,
-            reg: *r.pick(&regs),
+            reg: *r.pick(&regs) * pow2(2 * sc),
             tol: *r.pick(&[1e-3, 1e-5, 1e-8]),
             max_iter: *r.pick(&[2, 3, 100, 200]),
             n_runs: *r.pick(&[1, 1, 2, 3]),
@@ -538,13 +739,15 @@ fn main() {
             seed: r.below(1 << 20),
         };
         let xa = arr(&x);
-        let desc = desc_json("exact", 0, x.len(), d, &cfg, "", &x[0]);
         let mut tags: Vec<String> = vec!["stream_exact".into(), format!("k_{}", k), format!("d_{}", d), format!("init_{}", if cfg.random_init { "random" } else { "kmeans" })];
+        let vdesc = variant(&mut out, id, sc, &mut tags);
+        let desc = desc_json("exact", 0, x.len(), d, &cfg, &vdesc, &x[0]);
         if cfg.reg == 0.0 { tags.push("reg_zero".into()); }
         // a blob with at most d points has an exactly singular covariance (rank <= points - 1 < d)
         if (0..k).any(|b| lab.iter().filter(|&&l| l == b).count() <= d) { tags.push("tiny_blob".into()); }
         out.bump("stream_exact");
         out.bump(&format!("exact_k_{}", k));
+        set_ctx(id, &tags, &desc);
         let res = do_fit(&xa, &cfg);
         let this = id;
         id += 1;
@@ -613,8 +816,10 @@ fn main() {
         // far from the origin half of the fits use one component: with reg_covar > 0 such a fit must succeed
         let k = if kind == 7 && r.chance(0.5) { 1 } else { k };
         let per = if thorough { 12 + r.below(30) as usize } else { 10 + r.below(14) as usize };
-        let x = gen_general(&mut r, nblobs, per.max(d + 4), d, kind);
-        let reg = match kind {
+        flush_diffs(&mut out);
+        let sc = scale_of(id);
+        let x = scaled(&gen_general(&mut r, nblobs, per.max(d + 4), d, kind), sc);
+        let reg = pow2(2 * sc) * match kind {
             3 => *r.pick(&[1e-6, 1e-2, 1e-4]),
             6 => *r.pick(&[1e-2, 0.25]),
             5 => *r.pick(&[0.0, 1e-6, 1e-9]),
@@ -631,16 +836,18 @@ fn main() {
             seed: r.below(1 << 20),
         };
         let xa = arr(&x);
-        let desc = desc_json("general", kind, x.len(), d, &cfg, &format!("\"blobs\": {}, ", nblobs), &x[0]);
         let mut tags: Vec<String> = vec!["stream_general".into(), format!("kind_{}", kind), format!("k_{}", k), format!("d_{}", d), format!("init_{}", if cfg.random_init { "random" } else { "kmeans" })];
+        let vdesc = variant(&mut out, id, sc, &mut tags);
+        let desc = desc_json("general", kind, x.len(), d, &cfg, &format!("{}\"blobs\": {}, ", vdesc, nblobs), &x[0]);
         if cfg.reg == 0.0 { tags.push("reg_zero".into()); }
         out.bump("stream_general");
         out.bump(&format!("general_kind_{}", kind));
         out.bump(&format!("general_k_{}", k));
         out.bump(&format!("general_d_{}", d));
-        out.bump(&format!("general_reg_{:e}", cfg.reg));
+        out.bump(&format!("general_reg_{:e}", cfg.reg / pow2(2 * sc)));
         let this = id;
         id += 1;
+        set_ctx(this, &tags, &desc);
         let t: Vec<&str> = tags.iter().map(|s| s.as_str()).collect();
         match do_fit(&xa, &cfg) {
             Err(p) => {
@@ -676,6 +883,7 @@ fn main() {
 
     // ---------------------------------------------------------------- error stream
     for _ in 0..n_error {
+        flush_diffs(&mut out);
         let mut r = rng.fork();
         let d = 1 + r.below(4) as usize;
         let ek = r.below(5);
@@ -726,9 +934,14 @@ fn main() {
                 ((0..n).map(|_| (0..d).map(|_| r.range(-8, 8) as f64).collect()).collect(), false)
             }
         };
+        // data whose squares overflow (kind 3) stay as they are; the other kinds rotate through the scales
+        let sc = if ek == 3 { 0 } else { scale_of(id) };
+        let x = scaled(&x, sc);
+        cfg.reg *= pow2(2 * sc);
         let xa = arr(&x);
-        let desc = desc_json("error", ek, x.len(), d, &cfg, "", &x[0]);
         let mut tags: Vec<String> = vec!["stream_error".into(), format!("errkind_{}", ek)];
+        let vdesc = variant(&mut out, id, sc, &mut tags);
+        let desc = desc_json("error", ek, x.len(), d, &cfg, &vdesc, &x[0]);
         if cfg.reg == 0.0 { tags.push("reg_zero".into()); }
         if ek == 2 && !must_err { tags.push("duplicated_feature".into()); }
         let t: Vec<&str> = tags.iter().map(|s| s.as_str()).collect();
@@ -736,6 +949,7 @@ fn main() {
         out.bump(&format!("error_kind_{}", ek));
         let this = id;
         id += 1;
+        set_ctx(this, &tags, &desc);
         match do_fit(&xa, &cfg) {
             Err(p) => {
                 if ek == 3 {
@@ -786,14 +1000,17 @@ fn main() {
             4 | 5 => 1,
             _ => 1 + r.below(if d == 1 { 2 } else { 3 }) as usize,
         };
+        flush_diffs(&mut out);
+        let sc = scale_of(id);
         let (x, lab) = gen_fit_data(&mut r, fk, k, d);
+        let x = scaled(&x, sc);
         let blobs = 1 + *lab.iter().max().unwrap();
         if fk == 3 {
             k = blobs + 1 + r.below(2) as usize;
         } else {
             k = blobs;
         }
-        let reg = match fk {
+        let reg = pow2(2 * sc) * match fk {
             0 => *r.pick(&[0.0009765625, 1e-6, 1e-2, 0.25, 0.0]),
             1 => *r.pick(&[0.0009765625, 0.25, 1e-6, 1e-2, 4.0, 0.0]),
             2 => *r.pick(&[4.0, 25.0, 1.0, 0.25, 0.0]),
@@ -840,15 +1057,17 @@ fn main() {
         if decidable { tags.push("decidable".into()); }
         // an intended component with at most d points has a rank-deficient covariance (finding F40 when reg_covar = 0)
         if (0..blobs).any(|b| lab.iter().filter(|&&l| l == b).count() <= d) { tags.push("tiny_blob".into()); }
+        let vdesc = variant(&mut out, id, sc, &mut tags);
         let t: Vec<&str> = tags.iter().map(|s| s.as_str()).collect();
         let cfg0 = Cfg { k, reg, tol, max_iter: 100, n_runs: 1, random_init, seed };
-        let desc = desc_json("fit", fk, n, d, &cfg0, &format!("\"probes (max_n_iterations, n_runs)\": [{}], ", plan.iter().map(|p| format!("[{}, {}]", p.0, p.1)).collect::<Vec<_>>().join(", ")), &x[0]);
+        let desc = desc_json("fit", fk, n, d, &cfg0, &format!("{}\"probes (max_n_iterations, n_runs)\": [{}], ", vdesc, plan.iter().map(|p| format!("[{}, {}]", p.0, p.1)).collect::<Vec<_>>().join(", ")), &x[0]);
         out.bump("stream_fit");
         out.bump(&format!("fit_kind_{}", fk));
         out.bump(&format!("fit_init_{}", match init_kind { 0 => "responsibilities", 6 => "kmeans_error", _ => "panic" }));
         out.bump(if decidable { "fit_decidable" } else { "fit_not_decidable" });
         let this = id;
         id += 1;
+        set_ctx(this, &tags, &desc);
         let mut probes: Vec<Probe> = Vec::new();
         for &(mi, nr) in plan.iter() {
             let cfg = Cfg { max_iter: mi, n_runs: nr, ..cfg0.clone() };
@@ -908,5 +1127,6 @@ fn main() {
         let key = if decidable { Some(fnv_f64s(&x.concat(), (k as u64) << 8 | 4 | fk << 16)) } else { None };
         out.case(this, &term, &t, &desc, key);
     }
+    flush_diffs(&mut out);
     out.finish("four streams: exact (dyadic separated blobs, hard responsibilities, bit-for-bit), general (8 data families x d 1..6 x k 1..4 x both initialisers x reg_covar), error (non-convergence, too many components, singular covariance, overflow, n < k), fit (whole-fit model vs implementation on 6 degenerate exact families x 4 (max_n_iterations, n_runs) probes each: Ok / Err kind, parameters, precisions_chol, responsibilities); a case is non-trivial when k > 1 (exact stream: k > 1 or d > 1 and compared bit for bit; error stream: an Err was returned; fit stream: the model run is decidable); distinct = distinct (data, k, stream) hashes");
 }
